@@ -1,1 +1,585 @@
-fn main() {}
+//! C19 — introspection modes gate schema metadata and user resolvers.
+//!
+//! Seam: schema builders `disable_introspection()` / `introspection_only()`, request
+//! `disable_introspection()` / `only_introspection()`, `Schema::execute` / `execute_stream`, on a
+//! derive ("static") schema and its `async_graphql::dynamic` twin, federation enabled, one entity.
+//!
+//! Space: ALL 3×3 (schema-level × request-level) mode pairs × {static, dynamic} × operation kind ×
+//! every non-empty subset of the root selections legal for that kind (query: `__schema`, `__type`,
+//! `__typename`, `_service{sdl}`, `_entities(...)`, ordinary scalar field, ordinary object field =
+//! 127 subsets; mutation: `__typename`, counter field, object field = 7; subscription: two fields = 3)
+//! × how the selections are wrapped {direct, `... on Root {}`, named fragment} (query / mutation).
+//!
+//! Oracle: either level Disabled ⇒ no type or field name from `__schema`, `__type`, `_service.sdl` in
+//! any response (structural and substring test on sentinel names); either level IntrospectionOnly ⇒
+//! no query / mutation / subscription-factory / entity resolver ran (invocation log empty);
+//! `__typename`, when selected and the response carries a data object, equals the root type name.
+
+use agv_engine::record::{Cx, Violation};
+use agv_engine::sched::drive;
+use async_graphql::dynamic as dy;
+use async_graphql::*;
+use futures_util::stream::{self, Stream, StreamExt};
+use rayon::prelude::*;
+use serde_json::json;
+use std::sync::{Arc, Mutex};
+
+#[derive(Clone, Default)]
+struct Log(Arc<Mutex<Vec<String>>>);
+impl Log {
+    fn push(&self, s: &str) {
+        self.0.lock().unwrap().push(s.to_string());
+    }
+    fn take(&self) -> Vec<String> {
+        std::mem::take(&mut *self.0.lock().unwrap())
+    }
+}
+fn log(ctx: &Context<'_>, s: &str) {
+    if let Some(l) = ctx.data_opt::<Log>() {
+        l.push(s)
+    }
+}
+
+// ---------------------------------------------------------------------------------------------
+// static schema
+
+/// Never selected by an ordinary field in any enumerated document: its names can only reach a
+/// response as schema metadata.
+struct ZzSentinelType;
+#[Object(name = "ZzSentinelType")]
+impl ZzSentinelType {
+    #[graphql(name = "zzSentinelField")]
+    async fn zz_sentinel_field(&self, ctx: &Context<'_>) -> i32 {
+        log(ctx, "query:ZzSentinelType.zzSentinelField");
+        7
+    }
+}
+
+struct Thing;
+#[Object]
+impl Thing {
+    async fn val(&self, ctx: &Context<'_>) -> i32 {
+        log(ctx, "field:Thing.val");
+        3
+    }
+}
+
+struct Ent {
+    id: ID,
+}
+#[Object]
+impl Ent {
+    async fn id(&self, ctx: &Context<'_>) -> ID {
+        log(ctx, "field:Ent.id");
+        self.id.clone()
+    }
+}
+
+struct Query;
+#[Object]
+impl Query {
+    async fn plain(&self, ctx: &Context<'_>) -> i32 {
+        log(ctx, "query:Query.plain");
+        1
+    }
+    async fn obj(&self, ctx: &Context<'_>) -> Thing {
+        log(ctx, "query:Query.obj");
+        Thing
+    }
+    async fn hidden(&self, ctx: &Context<'_>) -> ZzSentinelType {
+        log(ctx, "query:Query.hidden");
+        ZzSentinelType
+    }
+    #[graphql(entity)]
+    async fn find_ent(&self, ctx: &Context<'_>, id: ID) -> Ent {
+        log(ctx, "entity:Ent");
+        Ent { id }
+    }
+}
+
+struct Mutation;
+#[Object]
+impl Mutation {
+    async fn bump(&self, ctx: &Context<'_>) -> i32 {
+        log(ctx, "mutation:Mutation.bump");
+        1
+    }
+    async fn mobj(&self, ctx: &Context<'_>) -> Thing {
+        log(ctx, "mutation:Mutation.mobj");
+        Thing
+    }
+}
+
+struct Subscription;
+#[Subscription]
+impl Subscription {
+    async fn ticks(&self, ctx: &Context<'_>) -> impl Stream<Item = i32> {
+        log(ctx, "subscription:Subscription.ticks");
+        stream::iter(vec![1])
+    }
+    async fn obj_ticks(&self, ctx: &Context<'_>) -> impl Stream<Item = Thing> {
+        log(ctx, "subscription:Subscription.objTicks");
+        stream::iter(vec![Thing])
+    }
+}
+
+type StaticSchema = Schema<Query, Mutation, Subscription>;
+
+fn static_schema(mode: usize) -> StaticSchema {
+    let b = Schema::build(Query, Mutation, Subscription).enable_federation();
+    match mode {
+        0 => b.finish(),
+        1 => b.disable_introspection().finish(),
+        _ => b.introspection_only().finish(),
+    }
+}
+
+// ---------------------------------------------------------------------------------------------
+// dynamic twin
+
+fn dlog(ctx: &dy::ResolverContext<'_>, s: &str) {
+    if let Some(l) = ctx.data_opt::<Log>() {
+        l.push(s)
+    }
+}
+
+fn dynamic_schema(mode: usize) -> Result<dy::Schema, String> {
+    use dy::{Field, FieldFuture, FieldValue, Object, SubscriptionField, SubscriptionFieldFuture, TypeRef};
+    let sentinel = Object::new("ZzSentinelType").field(Field::new("zzSentinelField", TypeRef::named_nn(TypeRef::INT), |ctx| {
+        FieldFuture::new(async move {
+            dlog(&ctx, "query:ZzSentinelType.zzSentinelField");
+            Ok(Some(FieldValue::value(7)))
+        })
+    }));
+    let thing = Object::new("Thing").field(Field::new("val", TypeRef::named_nn(TypeRef::INT), |ctx| {
+        FieldFuture::new(async move {
+            dlog(&ctx, "field:Thing.val");
+            Ok(Some(FieldValue::value(3)))
+        })
+    }));
+    let ent = Object::new("Ent")
+        .field(Field::new("id", TypeRef::named_nn(TypeRef::ID), |ctx| {
+            FieldFuture::new(async move {
+                dlog(&ctx, "field:Ent.id");
+                Ok(Some(FieldValue::value("1")))
+            })
+        }))
+        .key("id");
+    let query = Object::new("Query")
+        .field(Field::new("plain", TypeRef::named_nn(TypeRef::INT), |ctx| {
+            FieldFuture::new(async move {
+                dlog(&ctx, "query:Query.plain");
+                Ok(Some(FieldValue::value(1)))
+            })
+        }))
+        .field(Field::new("obj", TypeRef::named_nn("Thing"), |ctx| {
+            FieldFuture::new(async move {
+                dlog(&ctx, "query:Query.obj");
+                Ok(Some(FieldValue::owned_any(0u8)))
+            })
+        }))
+        .field(Field::new("hidden", TypeRef::named_nn("ZzSentinelType"), |ctx| {
+            FieldFuture::new(async move {
+                dlog(&ctx, "query:Query.hidden");
+                Ok(Some(FieldValue::owned_any(0u8)))
+            })
+        }));
+    let mutation = Object::new("Mutation")
+        .field(Field::new("bump", TypeRef::named_nn(TypeRef::INT), |ctx| {
+            FieldFuture::new(async move {
+                dlog(&ctx, "mutation:Mutation.bump");
+                Ok(Some(FieldValue::value(1)))
+            })
+        }))
+        .field(Field::new("mobj", TypeRef::named_nn("Thing"), |ctx| {
+            FieldFuture::new(async move {
+                dlog(&ctx, "mutation:Mutation.mobj");
+                Ok(Some(FieldValue::owned_any(0u8)))
+            })
+        }));
+    let subscription = dy::Subscription::new("Subscription")
+        .field(SubscriptionField::new("ticks", TypeRef::named_nn(TypeRef::INT), |ctx| {
+            SubscriptionFieldFuture::new(async move {
+                dlog(&ctx, "subscription:Subscription.ticks");
+                Ok(stream::iter(vec![Ok(FieldValue::value(1))]))
+            })
+        }))
+        .field(SubscriptionField::new("objTicks", TypeRef::named_nn("Thing"), |ctx| {
+            SubscriptionFieldFuture::new(async move {
+                dlog(&ctx, "subscription:Subscription.objTicks");
+                Ok(stream::iter(vec![Ok(FieldValue::owned_any(0u8))]))
+            })
+        }));
+    let b = dy::Schema::build("Query", Some("Mutation"), Some("Subscription"))
+        .register(sentinel)
+        .register(thing)
+        .register(ent)
+        .register(query)
+        .register(mutation)
+        .register(subscription)
+        .enable_federation()
+        .entity_resolver(|ctx| {
+            FieldFuture::new(async move {
+                let n = ctx.args.try_get("representations")?.list()?.len();
+                let mut values = Vec::new();
+                for _ in 0..n {
+                    dlog(&ctx, "entity:Ent");
+                    values.push(FieldValue::owned_any(0u8).with_type("Ent"));
+                }
+                Ok(Some(FieldValue::list(values)))
+            })
+        });
+    let b = match mode {
+        0 => b,
+        1 => b.disable_introspection(),
+        _ => b.introspection_only(),
+    };
+    b.finish().map_err(|e| format!("dynamic schema does not build: {e}"))
+}
+
+// ---------------------------------------------------------------------------------------------
+// cases
+
+const MODES: [&str; 3] = ["enabled", "disabled", "introspection-only"];
+const FLAVOURS: [&str; 2] = ["static", "dynamic"];
+const KINDS: [(&str, &str); 3] = [("query", "Query"), ("mutation", "Mutation"), ("subscription", "Subscription")];
+const WRAPS: [&str; 3] = ["direct", "typed-inline-fragment", "named-fragment"];
+
+/// (response key, selection text)
+const QUERY_SELS: [(&str, &str); 7] = [
+    ("__schema", "__schema { types { name } }"),
+    ("__type", "__type(name: \"ZzSentinelType\") { name fields { name } }"),
+    ("__typename", "__typename"),
+    ("_service", "_service { sdl }"),
+    ("_entities", "_entities(representations: [{__typename: \"Ent\", id: \"1\"}]) { __typename ... on Ent { id } }"),
+    ("plain", "plain"),
+    ("obj", "obj { val }"),
+];
+const MUTATION_SELS: [(&str, &str); 3] = [("__typename", "__typename"), ("bump", "bump"), ("mobj", "mobj { val }")];
+const SUBSCRIPTION_SELS: [(&str, &str); 2] = [("ticks", "ticks"), ("objTicks", "objTicks { val }")];
+
+fn sels_of(kind: usize) -> &'static [(&'static str, &'static str)] {
+    match kind {
+        0 => &QUERY_SELS,
+        1 => &MUTATION_SELS,
+        _ => &SUBSCRIPTION_SELS,
+    }
+}
+
+#[derive(Clone, Copy, Debug)]
+struct Case {
+    flavour: usize,
+    schema_mode: usize,
+    request_mode: usize,
+    kind: usize,
+    subset: u32,
+    wrap: usize,
+    reversed: bool,
+}
+
+fn document(c: &Case) -> (String, Vec<&'static str>) {
+    let sels = sels_of(c.kind);
+    let mut chosen: Vec<(&str, &str)> = sels.iter().enumerate().filter(|(i, _)| c.subset & (1 << i) != 0).map(|(_, s)| *s).collect();
+    if c.reversed {
+        chosen.reverse();
+    }
+    let body = chosen.iter().map(|s| s.1).collect::<Vec<_>>().join(" ");
+    let (kw, root) = KINDS[c.kind];
+    let doc = match c.wrap {
+        0 => format!("{kw} {{ {body} }}"),
+        1 => format!("{kw} {{ ... on {root} {{ {body} }} }}"),
+        _ => format!("{kw} {{ ...F }} fragment F on {root} {{ {body} }}"),
+    };
+    (doc, chosen.iter().map(|s| s.0).collect())
+}
+
+struct Schemas {
+    st: Vec<StaticSchema>,
+    dy: Vec<dy::Schema>,
+}
+
+struct Obs {
+    responses: Vec<serde_json::Value>,
+    log: Vec<String>,
+    parked: bool,
+}
+
+fn execute(s: &Schemas, c: &Case, doc: &str) -> Result<Obs, String> {
+    let log = Log::default();
+    let mut req = Request::new(doc).data(log.clone());
+    req = match c.request_mode {
+        0 => req,
+        1 => req.disable_introspection(),
+        _ => req.only_introspection(),
+    };
+    let mut parked = false;
+    let responses = agv_engine::catch_quiet(|| {
+        let mut out = Vec::new();
+        if c.kind == 2 {
+            let mut st = if c.flavour == 0 { s.st[c.schema_mode].execute_stream(req) } else { s.dy[c.schema_mode].execute_stream(req) };
+            for _ in 0..8 {
+                match drive(st.next()) {
+                    Some(Some(r)) => out.push(r),
+                    Some(None) => break,
+                    None => {
+                        parked = true;
+                        break;
+                    }
+                }
+            }
+        } else {
+            let r = if c.flavour == 0 { drive(s.st[c.schema_mode].execute(req)) } else { drive(s.dy[c.schema_mode].execute(req)) };
+            match r {
+                Some(r) => out.push(r),
+                None => parked = true,
+            }
+        }
+        out
+    })?;
+    Ok(Obs { responses: responses.iter().map(|r| serde_json::to_value(r).unwrap_or(json!("<unserializable>"))).collect(), log: log.take(), parked })
+}
+
+fn level_key(c: &Case, mode: usize) -> &'static str {
+    match (c.schema_mode == mode, c.request_mode == mode) {
+        (true, true) => "schema+request",
+        (true, false) => "schema",
+        (false, true) => "request",
+        _ => "none",
+    }
+}
+
+fn base_keys(v: Violation, c: &Case) -> Violation {
+    v.key("flavour", FLAVOURS[c.flavour]).key("operation", KINDS[c.kind].0).key("schema_mode", MODES[c.schema_mode]).key("request_mode", MODES[c.request_mode]).key("wrap", WRAPS[c.wrap])
+}
+
+fn case_json(c: &Case, doc: &str) -> serde_json::Value {
+    json!({"flavour": c.flavour, "schema_mode": c.schema_mode, "request_mode": c.request_mode, "kind": c.kind, "subset": c.subset, "wrap": c.wrap, "reversed": c.reversed, "document": doc})
+}
+
+/// Schema metadata found in one response: (field, what).
+fn metadata_in(resp: &serde_json::Value) -> Vec<(&'static str, String)> {
+    let mut found = Vec::new();
+    let data = &resp["data"];
+    if let Some(types) = data["__schema"]["types"].as_array() {
+        if types.iter().any(|t| t["name"].is_string()) {
+            found.push(("__schema", format!("{} type names", types.len())));
+        }
+    } else if !data["__schema"].is_null() {
+        found.push(("__schema", data["__schema"].to_string()));
+    }
+    if !data["__type"].is_null() {
+        found.push(("__type", data["__type"].to_string()));
+    }
+    if let Some(sdl) = data["_service"]["sdl"].as_str() {
+        if sdl.contains("type ") || sdl.contains("ZzSentinel") {
+            found.push(("_service-sdl", format!("SDL of {} bytes", sdl.len())));
+        }
+    }
+    found
+}
+
+fn check_case(cx: &Cx, s: &Schemas, c: &Case) {
+    let (doc, keys_selected) = document(c);
+    cx.eval();
+    let o = match execute(s, c, &doc) {
+        Ok(o) => o,
+        Err(p) => {
+            cx.violation(base_keys(Violation::new("panic", format!("{doc}: {p}"), case_json(c, &doc)), c));
+            return;
+        }
+    };
+    if o.parked {
+        cx.machinery_error(format!("request parked (resolvers are ready futures): {doc}"));
+        return;
+    }
+    let disabled = c.schema_mode == 1 || c.request_mode == 1;
+    let only = c.schema_mode == 2 || c.request_mode == 2;
+    let ctx_line = format!("[{} schema={} request={}] {doc}", FLAVOURS[c.flavour], MODES[c.schema_mode], MODES[c.request_mode]);
+    let all_text: String = o.responses.iter().map(|r| r.to_string()).collect::<Vec<_>>().join("\n");
+
+    // metadata
+    let mut meta: Vec<(&'static str, String)> = o.responses.iter().flat_map(metadata_in).collect();
+    let substring_hit = all_text.contains("zzSentinelField") || (all_text.contains("ZzSentinelType") && !keys_selected.contains(&"__type"));
+    if substring_hit && meta.is_empty() {
+        meta.push(("unknown-place", "a sentinel type/field name occurs in the serialized response".to_string()));
+    }
+    if disabled {
+        let mut fields: Vec<&str> = meta.iter().map(|m| m.0).collect();
+        fields.sort();
+        fields.dedup();
+        for f in fields {
+            let what: Vec<&str> = meta.iter().filter(|m| m.0 == f).map(|m| m.1.as_str()).collect();
+            cx.violation(
+                base_keys(
+                    Violation::new(
+                        format!("{}-{f}-ignores-Disabled", FLAVOURS[c.flavour]),
+                        format!("{ctx_line} -> response carries schema metadata under {f} ({}) although introspection is disabled at the {} level; response {}", what.join("; "), level_key(c, 1), trunc(&all_text)),
+                        case_json(c, &doc),
+                    ),
+                    c,
+                )
+                .key("field", f)
+                .key("disabled_at", level_key(c, 1)),
+            );
+        }
+    }
+    // resolvers
+    if only && !o.log.is_empty() {
+        let mut kinds: Vec<&str> = o.log.iter().map(|l| l.split(':').next().unwrap_or("")).collect();
+        kinds.sort();
+        kinds.dedup();
+        // `field:` entries are children of a root resolver that ran; the root entry names the defect
+        let roots: Vec<&str> = kinds.iter().copied().filter(|k| *k != "field").collect();
+        let roots = if roots.is_empty() { kinds.clone() } else { roots };
+        for k in roots {
+            let ran: Vec<&str> = o.log.iter().filter(|l| l.starts_with(k)).map(|l| l.as_str()).collect();
+            cx.violation(
+                base_keys(
+                    Violation::new(
+                        format!("{}-{k}-resolver-runs-under-IntrospectionOnly", FLAVOURS[c.flavour]),
+                        format!("{ctx_line} -> resolvers ran {:?} although the {} level is introspection-only; response {}", ran, level_key(c, 2), trunc(&all_text)),
+                        case_json(c, &doc),
+                    ),
+                    c,
+                )
+                .key("resolver", k)
+                .key("only_at", level_key(c, 2)),
+            );
+        }
+    }
+    // __typename
+    let mut typename_judged = false;
+    if keys_selected.contains(&"__typename") {
+        for r in &o.responses {
+            if let Some(obj) = r["data"].as_object() {
+                typename_judged = true;
+                let got = obj.get("__typename");
+                if got.and_then(|v| v.as_str()) != Some(KINDS[c.kind].1) {
+                    cx.violation(
+                        base_keys(
+                            Violation::new(
+                                format!("{}-__typename-not-root-type-name", FLAVOURS[c.flavour]),
+                                format!("{ctx_line} -> __typename is {} (expected \"{}\"); response {}", got.map(|g| g.to_string()).unwrap_or("absent".into()), KINDS[c.kind].1, trunc(&all_text)),
+                                case_json(c, &doc),
+                            ),
+                            c,
+                        )
+                        .key("got", got.map(|g| g.to_string()).unwrap_or("absent".into()))
+                        .key("only_at", level_key(c, 2))
+                        .key("disabled_at", level_key(c, 1)),
+                    );
+                }
+            }
+        }
+    }
+    // non-vacuity: with everything enabled the same requests do return metadata and do run resolvers
+    if c.schema_mode == 0 && c.request_mode == 0 && c.wrap == 0 {
+        let wants_meta = keys_selected.iter().any(|k| matches!(*k, "__schema" | "__type" | "_service"));
+        let wants_resolver = keys_selected.iter().any(|k| !matches!(*k, "__schema" | "__type" | "_service" | "__typename"));
+        if wants_meta && (meta.is_empty() || !all_text.contains("ZzSentinelType")) {
+            cx.machinery_error(format!("self-check: with introspection enabled {ctx_line} returned no metadata: {}", trunc(&all_text)));
+        }
+        if wants_resolver && o.log.is_empty() {
+            cx.machinery_error(format!("self-check: with introspection enabled {ctx_line} ran no resolver: {}", trunc(&all_text)));
+        }
+    }
+    if disabled || only || typename_judged {
+        cx.nontrivial_count(1);
+    }
+    cx.extra_add(if typename_judged { "typename_judged" } else { "typename_not_selected_or_no_data" }, 1);
+    let id = agv_engine::h64(&(c.flavour, c.schema_mode, c.request_mode, c.kind, c.subset, c.wrap, c.reversed));
+    cx.sample_with(id, || json!({"flavour": FLAVOURS[c.flavour], "schema_mode": MODES[c.schema_mode], "request_mode": MODES[c.request_mode], "document": doc, "resolver_log": o.log, "responses": o.responses.iter().map(|r| trunc(&r.to_string())).collect::<Vec<_>>()}));
+}
+
+fn trunc(s: &str) -> String {
+    if s.len() > 400 {
+        let mut e = 400;
+        while !s.is_char_boundary(e) {
+            e -= 1;
+        }
+        format!("{}… ({} bytes)", &s[..e], s.len())
+    } else {
+        s.to_string()
+    }
+}
+
+fn all_cases(thorough: bool) -> Vec<Case> {
+    let mut v = Vec::new();
+    for flavour in 0..2 {
+        for schema_mode in 0..3 {
+            for request_mode in 0..3 {
+                for kind in 0..3 {
+                    let n = sels_of(kind).len();
+                    for subset in 1u32..(1 << n) {
+                        for wrap in 0..3 {
+                            if kind == 2 && wrap != 0 {
+                                continue; // static schemas collect subscription streams from plain root fields only
+                            }
+                            for reversed in [false, true] {
+                                if reversed && (!thorough || subset.count_ones() < 2) {
+                                    continue;
+                                }
+                                v.push(Case { flavour, schema_mode, request_mode, kind, subset, wrap, reversed });
+                            }
+                        }
+                    }
+                }
+            }
+        }
+    }
+    v
+}
+
+fn build_schemas() -> Result<Schemas, String> {
+    Ok(Schemas { st: (0..3).map(static_schema).collect(), dy: (0..3).map(dynamic_schema).collect::<Result<Vec<_>, _>>()? })
+}
+
+pub fn run(cx: &Cx) {
+    cx.rule(
+        "case = (flavour static/dynamic, schema-level mode, request-level mode, operation kind, non-empty subset of that kind's root selections, wrapping). All 3x3 mode pairs; query: 127 subsets of \
+         {__schema, __type, __typename, _service{sdl}, _entities, scalar field, object field}; mutation: 7 subsets of {__typename, counter, object field}; subscription: 3 subsets of two fields; \
+         query/mutation selections direct, under `... on Root {}` and in a named fragment [thorough: also in reversed order]. \
+         Non-trivial = a case in which at least one oracle clause applies (a level is Disabled or IntrospectionOnly, or __typename was selected and a data object came back).",
+    );
+    cx.assume("'the operation executes' = the response carries a data object; requests rejected by validation (e.g. __schema on a schema built with introspection disabled) or nulled by a field error are not judged for __typename");
+    cx.assume("subscriptions are driven through execute_stream to the end of the stream (each harness stream has one item); fragments at the subscription root are not enumerated");
+    cx.assume("whether introspection fields answer under IntrospectionOnly, and whether ordinary fields answer under Disabled, is not part of the statement and not judged");
+    let schemas = match build_schemas() {
+        Ok(s) => s,
+        Err(e) => {
+            cx.machinery_error(e);
+            return;
+        }
+    };
+    let cases = all_cases(!cx.quick());
+    cases.par_iter().for_each(|c| check_case(cx, &schemas, c));
+    cx.exhaustive(true);
+    cx.extra("cases", json!(cases.len()));
+    cx.extra("mode_pairs", json!(9));
+    cx.extra("subsets", json!({"query": 127, "mutation": 7, "subscription": 3}));
+}
+
+pub fn replay(case: &serde_json::Value) -> String {
+    let g = |k: &str| case[k].as_u64().unwrap_or(0) as usize;
+    let c = Case { flavour: g("flavour"), schema_mode: g("schema_mode"), request_mode: g("request_mode"), kind: g("kind"), subset: g("subset") as u32, wrap: g("wrap"), reversed: case["reversed"].as_bool().unwrap_or(false) };
+    let schemas = match build_schemas() {
+        Ok(s) => s,
+        Err(e) => return e,
+    };
+    let (doc, _) = document(&c);
+    match execute(&schemas, &c, &doc) {
+        Ok(o) => format!(
+            "[{} schema={} request={}] {doc} -> resolver log {:?}; responses {}",
+            FLAVOURS[c.flavour],
+            MODES[c.schema_mode],
+            MODES[c.request_mode],
+            o.log,
+            o.responses.iter().map(|r| trunc(&r.to_string())).collect::<Vec<_>>().join(" | ")
+        ),
+        Err(e) => format!("execution failed: {e}"),
+    }
+}
+
+fn main() {
+    agv_engine::driver::main("C19", "exploration", run, Some(replay))
+}
